@@ -814,6 +814,13 @@ class ExprMixin:
         def fin2(s, vals):
             if isinstance(vals, Raised):
                 return [(s, vals)]
+            b = vals[0]
+            if isinstance(b.t, TRef) or (isinstance(b.t, TOpt) and isinstance(b.t.inner, TRef)):
+                # obj[key] on an object: its class's __getitem__ (a contracted repo method or an assumed external one)
+                rs = []
+                for s2, m in self.getattr(b, "__getitem__", s, e):
+                    rs.extend(self.apply(m, [vals[1]], {}, s2, e))
+                return rs
             return [(s, self.index(vals[0], vals[1], s, e))]
 
         return [r for s, vals in self.ev_list([e.value, e.slice], st) for r in fin2(s, vals)]
@@ -838,8 +845,9 @@ class ExprMixin:
 
     def index(self, base: SV, idx: SV, st, node):
         t = base.t
-        if isinstance(t, TOpt) and not st.spec:
-            self.partial(st, z3.Not(sym.opt_is_none(base)), "TypeError", node)
+        if isinstance(t, TOpt):
+            if not st.spec:  # in a specification the clause itself guards the access (implies(x is not None, ...))
+                self.partial(st, z3.Not(sym.opt_is_none(base)), "TypeError", node)
             base = sym.opt_val(base)
             t = base.t
         if isinstance(t, TConst):
